@@ -6,6 +6,7 @@ import (
 	"encoding/hex"
 	"fmt"
 	"net/netip"
+	"regexp"
 	"strconv"
 	"strings"
 	"testing/fstest"
@@ -1033,6 +1034,71 @@ func c06Sequences(w *core.W, j int) {
 		seq{"$TTL-wins-over-explicit", "$ORIGIN a.example.\n$TTL 300\none 600 A 192.0.2.1\ntwo A 192.0.2.2\n",
 			[]exp{{"one.a.example.", 600}, {"two.a.example.", 300}}},
 	)
+	// every type with domain names in its RDATA: the names written relative to the origin (and the
+	// origin itself as @) denote the same record
+	{
+		g := model.NewGen(w.Rng(j, 9))
+		g.NoHuge = true
+		g.Plain = true
+		g.MaxOpaque = 24
+		relRe := regexp.MustCompile(`([A-Za-z0-9_-]+)\.example\.(\s|$)`)
+		for _, l := range textLayouts() {
+			hasName := false
+			for _, fd := range l.Fields {
+				switch fd.Kind {
+				case model.KName, model.KCName, model.KNames, model.KGateway:
+					hasName = true
+				}
+			}
+			if !hasName {
+				continue
+			}
+			r := c05Base(g, l)
+			for i, fd := range l.Fields {
+				if fd.Kind == model.KGateway { // the gateway is a host name
+					r.Vals[i] = model.Gateway{Type: 3, Host: model.Name{[]byte("gw"), []byte("example")}}
+				}
+			}
+			r.Fixup()
+			rr, _, err := dns.UnpackRR(r.Wire(), 0)
+			if err != nil {
+				continue
+			}
+			want, err := packRR(rr)
+			if err != nil {
+				continue
+			}
+			text := rr.String()
+			if one, err := dns.NewRR(text); err != nil || one == nil {
+				continue // the absolute form itself is not readable: C05 reports that
+			}
+			rel := relRe.ReplaceAllString(text, "$1$2")
+			if rel == text {
+				continue
+			}
+			zone := "$ORIGIN example.\n" + rel + "\n"
+			w.Eval(1)
+			w.Count("relative_rdata_name_cases", 1)
+			w.Cover("relative_rdata_type", l.Name)
+			wit := map[string]any{"zone_text": zone, "absolute": text}
+			var got dns.RR
+			var perr error
+			if w.Guard("ZoneParser", wit, func() {
+				zp := dns.NewZoneParser(strings.NewReader(zone), "", "rel.db")
+				got, _ = zp.Next()
+				perr = zp.Err()
+			}) {
+				continue
+			}
+			if perr != nil || got == nil {
+				w.Violation("C06/relative-rdata-name/parse-error/"+l.Name, fmt.Sprintf("%v\n%s", perr, zone), wit)
+				continue
+			}
+			if gb, err := packRR(got); err != nil || !bytes.Equal(gb, want) {
+				w.Violation("C06/relative-rdata-name/not-completed-with-origin/"+l.Name, fmt.Sprintf("read %s\nfrom %s", cutS(got.String()), zone), wit)
+			}
+		}
+	}
 	files := fstest.MapFS{
 		"zones/seq.db":  &fstest.MapFile{Data: []byte("www 77 IN A 192.0.2.7\n@ 77 IN A 192.0.2.7\na.b 77 IN A 192.0.2.7\n* 77 IN A 192.0.2.7\nWWW 77 IN A 192.0.2.7\n")},
 		"zones/ttl.db":  &fstest.MapFile{Data: []byte("one 600 A 192.0.2.1\ntwo A 192.0.2.2\n")},
